@@ -285,6 +285,7 @@ class Executor:
             if key not in cache:
                 c = fresh(v.t, k.replace(".", "_") + "_v")
                 cache[key] = (c, z)
+                self.__dict__.setdefault("_named_rev", {})[c.z.get_id()] = z
             c, z0 = cache[key]
             eq = c.z == z0
             if not any(eq.eq(h) for h in st.pc[-40:]):
@@ -488,6 +489,8 @@ class Executor:
                 return mk_set(hint, z3.K(sort_of(hint.k), z3.BoolVal(False)), z3.IntVal(0))
         v = ev.expr(node)
         if hint is not None and v.t != hint:
+            if isinstance(hint, TDict) and isinstance(v.t, TDict) and hint.k == v.t.k and hint.v == REAL and v.t.v == INT:
+                raise Unsupported("dict[int values] where dict[float values] is declared")
             v = coerce_to(v, hint)
         return v
 
@@ -757,6 +760,10 @@ class Executor:
                             w.add(mname.replace("self", rn, 1) if mname.startswith("self") else mname)
                     elif f.attr in MUTATING:
                         w.update(target_root(recv))
+                    if f.attr == "shuffle" and n.args:
+                        w.update(target_root(n.args[0]))
+                elif isinstance(f, ast.Name) and f.id in ("heappush", "heappop", "heapify") and n.args:
+                    w.update(target_root(n.args[0]))
                 elif isinstance(f, ast.Name):
                     ov = st.vars.get(f.id)
                     if ov is not None and isinstance(ov.t, TObj):
@@ -785,6 +792,14 @@ class Executor:
 
         for b in body_nodes:
             visit(b)
+        # ghost assignments hooked on statements (ghost_before / ghost_after) and helper handles of builtins
+        for _, gvar, _ in list(self.spec.ghost_after) + list(self.spec.ghost_before):
+            w.add(gvar)
+        src = " ".join(ast.unparse(b) for b in body_nodes)
+        if "sorted(" in src or ".sort(" in src:
+            w.add("_perm")
+        if ".values()" in src:
+            w.update({"_key_at", "_pos_of"})
         return w
 
     def havoc(self, st: State, names, hint="h"):
@@ -820,6 +835,7 @@ class Executor:
         line = s.lineno - self.fn.lineno
         self.check_invs(st, ls, "inv-entry", k, line=line)
         w = self.write_set(s.body, st) | set(ls.ghost)
+        self.__dict__.setdefault("_last_w", {})[id(s)] = set(w)
         h = st.copy()
         self.havoc(h, w, f"L{k}")
         self.assume_invs(h, ls)
@@ -838,6 +854,7 @@ class Executor:
             self.emit(body_st, f"variant-bounded#{k}", z3.And(*[m >= 0 for m in m0]), line)
         for (s2, kind, payload) in self.block(s.body, body_st):
             if kind in ("normal", "continue"):
+                self.check_write_set(h, s2, s)
                 step(s2)
                 for g, gexpr in ls.ghost.items():
                     s2.vars[g] = self.spec_value(gexpr, s2, old=self.old)
@@ -870,6 +887,30 @@ class Executor:
         for x, y in reversed(list(zip(a, b))):
             res = z3.Or(x < y, z3.And(x == y, res))
         return res
+
+    def resolve_named(self, z):
+        rev = self.__dict__.get("_named_rev", {})
+        seen = 0
+        while z is not None and z.get_id() in rev and seen < 50:
+            z = rev[z.get_id()]
+            seen += 1
+        return z
+
+    def check_write_set(self, head: State, end: State, loop_node):
+        """safety net for the syntactic write set: a variable that is not havoced at the loop head must have the
+        same value at the end of the body (otherwise the invariant would be assumed for a stale value)"""
+        w = getattr(self, "_last_w", {}).get(id(loop_node))
+        if w is None:
+            return
+        for name, v0 in head.vars.items():
+            if name in w or v0.z is None:
+                continue
+            v1 = end.vars.get(name)
+            if v1 is None or v1.z is None:
+                continue
+            a, b = self.resolve_named(v0.z), self.resolve_named(v1.z)
+            if not a.eq(b):
+                raise Unsupported(f"write set of the loop at line {loop_node.lineno} misses '{name}' (engine defect: refusing to continue)")
 
     def s_For(self, s, st):
         from .forloops import exec_for
